@@ -111,6 +111,10 @@ def c08(rng, qk):
     s.logger("L0", ["S0"], lvl=0)
     for t in range(rng.randint(1, 3)):
         s.start(f"t{t}")
+    # backtrace control requests on a dropping queue: never discarded (thread t0 only; capacity above what it stores)
+    bt = rng.random() < 0.5
+    if bt:
+        s.op("T t0 initbt L0 cap=64")
     targeted = rng.random() < 0.3
     for _ in range(rng.randint(15, 45)):
         r = rng.random()
@@ -126,7 +130,13 @@ def c08(rng, qk):
         elif r < 0.66 and s.alive:
             # control requests are never discarded (they retry) and never counted as drops
             t = rng.choice(sorted(s.alive))
-            s.op(rng.choice([f"T {t} flush L0", f"T {t} initbt L0 cap=2", f"T {t} flushbt L0"]))
+            if bt and "t0" in s.alive and rng.random() < 0.7:
+                if rng.random() < 0.6:
+                    s.log("t0", "L0", lvl=9, pad=rng.randint(0, 8), kind="direct")     # stored, not written
+                else:
+                    s.op("T t0 flushbt L0")
+            else:
+                s.op(f"T {t} flush L0")
         elif r < 0.72 and len(s.alive) > 1:
             s.join(rng.choice(sorted(s.alive)))
         elif r < 0.76 and len(s.threads) < 5:
@@ -137,6 +147,22 @@ def c08(rng, qk):
             s.op("B go")
         else:
             s.backend_some(fine_prob=0.5)
+    if bt and "t0" in s.alive and rng.random() < 0.7:
+        # a control request issued while the thread's own queue is full: it must wait (retry), never be discarded or counted
+        for u in sorted(s.alive):
+            s.op(f"T {u} go")
+        s.op("B drain")
+        s.log("t0", "L0", lvl=9, pad=4, kind="direct")
+        s.log("t0", "L0", lvl=9, pad=5, kind="direct")
+        room = (cap if bounded else mx) - qsys.HDR
+        for _ in range(5):
+            s.log("t0", "L0", pad=max(0, room // 3 - 4))          # fills the queue (the last ones are dropped)
+        for _ in range(3):
+            s.log("t0", "L0", pad=rng.randint(0, 12))             # small ones squeeze into what is left
+        s.op("T t0 flushbt L0")
+        for _ in range(3):
+            s.op("B drain")
+            s.op("T t0 go")
     if targeted and bounded:
         # a drop followed by the thread's exit while the backend is inside an idle poll (after its failure-counter check)
         t = f"t{len(s.threads)}"
